@@ -157,7 +157,7 @@ def copy_specs(dst, extra_files=None):
 
 
 def tlc(module, cfg_text, workers=None, timeout=600, extra_files=None, args=None, env_extra=None, keep=False,
-        heap=None, dfs=False, workdir=None):
+        heap=None, dfs=False, workdir=None, xss=None):
     """Run TLC on `module` (a file name without .tla present in specs/ or extra_files) with cfg text."""
     d = workdir or scratch(module)
     copy_specs(d, extra_files)
@@ -167,6 +167,8 @@ def tlc(module, cfg_text, workers=None, timeout=600, extra_files=None, args=None
     java = ['java', '-XX:+UseParallelGC', '-XX:ParallelGCThreads=2', '-XX:CICompilerCount=2', '-XX:TieredStopAtLevel=1', '-Xss64m']
     if (workers or 1) > 2:
         java = ['java', '-XX:+UseParallelGC', '-Xss64m']
+    if xss:
+        java = [a for a in java if not a.startswith('-Xss')] + ['-Xss' + xss]
     if heap:
         java.append('-Xmx' + heap)
     if dfs:
